@@ -212,6 +212,14 @@ def cases(ctx):
             # (on NV the context / fidelity-constrained forms are the subject of C09's and C10's known findings)
             ops = [o for o in ops if o[0] not in ("create_context", "recv_context", "create_keep_fid", "recv_keep_fid")]
         yield {"kind": "epr-history", "k": k, "ops": ops, "hardware": hw}
+    kk = 0
+    for shape in ("nested", "sequential"):
+        for depth in (6, 9, 11, 12):
+            for then in ("create_keep", "recv_measure", "add"):
+                for order in ("loops-first", "op-first"):
+                    kk += 1
+                    if ctx.mine(kk):
+                        yield {"kind": "finished-then-op", "shape": shape, "depth": depth, "then": then, "order": order}
     for _ in range(ctx.n(40, 2000)):
         depth = rng.choice([5, 6, 7, 8, 9, 10])
         yield {"kind": "deep", "depth": depth, "prog": deep_program(rng, depth), "script": [rng.randrange(2) for _ in range(16)]}
@@ -346,9 +354,72 @@ def _epr_history(ctx, case):
               "first_operations": case["ops"][:6]}, done >= 40)
 
 
+KF_SCRATCH = "assembler-scratch:registers-of-finished-operations-stay-excluded-until-the-flush"
+
+
+def _finished_then_op(ctx, case):
+    """A finished operation that needed many registers (nested or explicit loop registers, all closed again), then - in the same
+    flush segment - an operation with several literal operands (create_keep, recv_measure, add with modulus)."""
+    from netqasm.sdk.epr_socket import EPRSocket
+    from netqasm.sdk.qubit import Qubit
+    from vf.harness import controller as hc
+    from vf.harness.link import LinkModel, PlannedRequest
+    from vf.harness.pipeline import Pipe
+    es = EPRSocket("bob")
+    kind = case["then"]
+    plan = [PlannedRequest("create" if kind == "create_keep" else "recv", "K" if kind == "create_keep" else "M", 1)] if kind != "add" else []
+    pipe = Pipe(epr_sockets=[es], link=LinkModel(plan, partners=False), max_qubits=3, step_limit=2000000)
+    conn = pipe.conn
+    mm = conn.builder._mem_mgr
+
+    def nest(d, q):
+        if d == 0:
+            q.H()
+            return
+        with conn.loop(2):
+            nest(d - 1, q)
+
+    def second():
+        if kind == "create_keep":
+            es.create_keep(1)[0].measure()
+        elif kind == "recv_measure":
+            es.recv_measure(1)
+        else:
+            conn.new_array(1, init_values=[1]).get_future_index(0).add(1, mod=2)
+    try:
+        q = Qubit(conn)
+        if case["order"] == "op-first":
+            second()
+        if case["shape"] == "nested":
+            nest(case["depth"], q)
+        else:
+            for i in range(case["depth"]):
+                with conn.loop(2, loop_register=f"R{15 - i}"):
+                    q.H()
+        if case["order"] == "loops-first":
+            second()
+        open_regs = len(mm._active_registers)
+        ctx.count("finished_then_op_cases")
+        try:
+            conn.flush()
+        except RuntimeError as e:
+            if "no registers left" in str(e):
+                ctx.fail(case, f"{case['depth']} {case['shape']} loops (all closed) and then {kind} in one flush segment cannot be compiled although only "
+                               f"{open_regs} register(s) are held by open operations: {e}", key=KF_SCRATCH)
+                return ctx.case(case, True)
+            raise
+        q.measure()
+        conn.close()
+    except (hc.ControllerFault, hc.Deadlock, hc.StepLimit) as e:
+        ctx.fail(case, f"controller failed: {e}")
+    ctx.case(case, True)
+
+
 def run_case(ctx, case):
     _state["ctx"] = ctx
     _state["viol"] = None
+    if case["kind"] == "finished-then-op":
+        return _finished_then_op(ctx, case)
     if case["kind"] == "epr-history":
         return _epr_history(ctx, case)
     prog, script = case["prog"], case["script"]
